@@ -88,7 +88,7 @@ func (g G) drawAttrQ(label string, w *WorldCfg, sp int) *MsgSpec {
 
 // deviate applies one deviation from conformance out of the lists in the statements of C06 / C12 / C13.
 func (g G) deviate(label string, m *MsgSpec) {
-	opts := []string{"b64-garbage", "b64-garbage", "deflate-cut", "dest-issuer-route", "dest-issuer-route", "dest-metadata-base", "dest-query", "dest-bare-query", "dest-fragment", "dest-userinfo", "dest-pct", "dest-request-host", "dest-request-host", "dest-other-host", "dest-other-host", "issuer-absent", "issuer-empty", "issuer-other", "issuer-rogue", "issuer-lookalike", "issuer-case", "issuer-space",
+	opts := []string{"b64-garbage", "b64-garbage", "deflate-cut", "dest-issuer-route", "dest-issuer-route", "dest-metadata-base", "dest-double-slash", "dest-query", "dest-bare-query", "dest-fragment", "dest-userinfo", "dest-pct", "dest-request-host", "dest-request-host", "dest-other-host", "dest-other-host", "issuer-absent", "issuer-empty", "issuer-other", "issuer-rogue", "issuer-lookalike", "issuer-case", "issuer-space",
 		"dest-other", "dest-foreign", "dest-case", "dest-upper", "dest-slash", "dest-scheme", "dest-empty",
 		"noid", "emptyid", "noversion", "emptyversion", "version11", "timelit", "window-past", "window-future", "encoding", "sigalg-nosig", "empty-request", "double-encode",
 		"rogue-sp", "struct"}
@@ -116,6 +116,8 @@ func (g G) deviate(label string, m *MsgSpec) {
 		m.DestMode = "issuer-route"
 	case "dest-metadata-base":
 		m.DestMode = "metadata-base"
+	case "dest-double-slash":
+		m.DestMode = "double-slash"
 	case "dest-query", "dest-bare-query", "dest-fragment", "dest-userinfo", "dest-pct", "dest-request-host":
 		m.DestMode = strings.TrimPrefix(g.pick(label+".same", "dest-query", "dest-bare-query", "dest-fragment", "dest-userinfo", "dest-pct", "dest-request-host", "dest-request-host"), "dest-")
 	case "b64-garbage":
@@ -227,7 +229,7 @@ func (g G) tamper(label string, m *MsgSpec) {
 				ops = append(ops, "soap_header_wrap", "soap_header_wrap")
 			}
 		default:
-			ops = append(common, "strip_sigparams", "sig_flip", "swap_sigalg", "foreign_sig", "dup_param", "truncate_query", "move-post", "empty-sig", "sig_flip", "dsa_forge", "body-override", "body-override", "blank-sig", "blank-sig")
+			ops = append(common, "strip_sigparams", "sig_flip", "swap_sigalg", "foreign_sig", "dup_param", "truncate_query", "move-post", "empty-sig", "sig_flip", "dsa_forge", "body-override", "body-override", "blank-sig", "blank-sig", "post-query", "post-query")
 		}
 		switch op := g.pick(lab+".op", ops...); op {
 		case "field-acs":
@@ -304,6 +306,8 @@ func (g G) tamper(label string, m *MsgSpec) {
 			m.Tamper = append(m.Tamper, Tamper{Op: "truncate_query", A: g.intn(lab+".off", 3000)})
 		case "dsa_forge":
 			m.Tamper = append(m.Tamper, Tamper{Op: "dsa_forge", A: g.intn(lab+".dsa", 2)})
+		case "post-query":
+			m.Method = "POST-query"
 		case "move-post":
 			m.Method = "POST-move"
 		case "body-override":
